@@ -53,3 +53,28 @@ Fixpoint mclose (atol rtol : float) (A B : list (list float)) : bool :=
 
 Definition mmaxabs (A : list (list float)) : float :=
   fold_left (fun acc r => fold_left (fun a x => let y := PrimFloat.abs x in if PrimFloat.leb a y then y else a) r acc) A 0%float.
+
+(* complex binary64: pairs (re, im); order is numpy's lexicographic one, abs the modulus *)
+Definition cfloat := (float * float)%type.
+Definition c_add (a b : cfloat) : cfloat := (fst a + fst b, snd a + snd b)%float.
+Definition c_sub (a b : cfloat) : cfloat := (fst a - fst b, snd a - snd b)%float.
+Definition c_mul (a b : cfloat) : cfloat :=
+  (fst a * fst b - snd a * snd b, fst a * snd b + snd a * fst b)%float.
+Definition c_opp (a : cfloat) : cfloat := (- fst a, - snd a)%float.
+Definition c_conj (a : cfloat) : cfloat := (fst a, - snd a)%float.
+Definition c_inv (a : cfloat) : cfloat :=
+  let d := (fst a * fst a + snd a * snd a)%float in (fst a / d, - snd a / d)%float.
+Definition c_div (a b : cfloat) : cfloat := c_mul a (c_inv b).
+Definition c_abs (a : cfloat) : cfloat := (PrimFloat.sqrt (fst a * fst a + snd a * snd a), 0)%float.
+Definition c_leb (a b : cfloat) : bool :=
+  PrimFloat.ltb (fst a) (fst b) || (PrimFloat.eqb (fst a) (fst b) && PrimFloat.leb (snd a) (snd b)).
+Definition c_sqrt (a : cfloat) : cfloat := (PrimFloat.sqrt (fst a), 0%float).
+
+Definition OC64 : Ops cfloat := {|
+  f0 := (0, 0)%float; f1 := (1, 0)%float;
+  fadd := c_add; fmul := c_mul; fsub := c_sub; fopp := c_opp; fdiv := c_div; finv := c_inv;
+  fconj := c_conj; fsqrt := c_sqrt; fabs := c_abs; fleb := c_leb;
+  fofZ := fun z => (float_ofZ z, 0%float) |}.
+
+Definition cclose (atol rtol : float) (a b : cfloat) : bool :=
+  fclose atol rtol (fst a) (fst b) && fclose atol rtol (snd a) (snd b).
